@@ -35,7 +35,9 @@ RULE = (
     "zero-extent) over the lattice; every LineString and MultiPoint sequence (repeats included) up to the length "
     "bound; every 3-point ring (repeated and collinear points included); every placement/vertex order of "
     "rectangles and L-shapes; rectangles with every admissible triangular/rectangular hole; MultiLineStrings and "
-    "MultiPolygons with 1-3 members from the stated pools. A case is non-trivial when the model bounds have "
+    "MultiPolygons with 1-3 members from the stated pools; an off-lattice family (17-digit coordinates, extents tiny relative to "
+    "the coordinates, shells not starting at their earliest vertex, self-crossing rings, 33/129/1025-vertex lines and outlines) "
+    "judged with a 1e-9 tolerance on features / anchor points and exactly on bounds and conversion. A case is non-trivial when the model bounds have "
     "positive extent in time and in frequency (the nine anchor points are then pairwise distinct); distinct = "
     "distinct (type, coordinates)."
 )
@@ -325,6 +327,25 @@ def family(fam, tier):
         for k in range(4):
             yield "Polygon", [shell[k:] + shell[:k], hole]
             yield "MultiPolygon", [[shell[k:] + shell[:k], hole], [[P[0], P[4], P[8]]]]
+        # extents that are tiny relative to the magnitude of the coordinates (a 100 us click two days into a deployment, a 2 mHz
+        # band at 4 MHz): duration / bandwidth must still be the differences
+        yield "TimeInterval", [172800.0, 172800.0001]
+        yield "BoundingBox", [172800.0, 4000000.0, 172800.0001, 4000000.002]
+        yield "LineString", [[172800.0, 4000000.0], [172800.0001, 4000000.002]]
+        yield "MultiPoint", [[172800.0001, 4000000.002], [172800.0, 4000000.0]]
+        yield "Polygon", [[[172800.0, 4000000.0], [172800.0001, 4000000.0], [172800.0001, 4000000.002]]]
+        # many vertices (33 / 129 / 1025: beyond any plausible 'small geometry' threshold), first <= last in time but the earliest and
+        # the latest vertex in the interior; dense outlines of a rectangle (collinear vertices) for the polygonal types
+        for n in (33, 129, 1025):
+            zig = [[3.0, 1000.0]] + [[3.0 + ((i * 37) % 64 - 29) / 8.0, float((i * 97) % 4001)] for i in range(1, n - 1)] + [[5.0, 2000.0]]
+            yield "LineString", zig
+            yield "MultiPoint", zig
+            yield "MultiLineString", [zig, [[0.0, 0.0], [1.0, 125.0]]]
+            k = (n - 1) // 4
+            ring = ([[8.0 * i / k, 0.0] for i in range(k)] + [[8.0, 4000.0 * i / k] for i in range(k)]
+                    + [[8.0 - 8.0 * i / k, 4000.0] for i in range(k)] + [[0.0, 4000.0 - 4000.0 * i / k] for i in range(k)])
+            yield "Polygon", [ring]
+            yield "MultiPolygon", [[ring], [[[9.0, 0.0], [10.0, 0.0], [10.0, 125.0]]]]
         T, Fq = lattice("quick")
         for t0, t1, f0, f1 in rects(T, Fq):
             c = rect_corners(t0, t1, f0, f1)
